@@ -38,7 +38,8 @@ META = {
              'ccess status requires the fault-free destination.'
              " Round 12: http_faults with per-shard layouts, outdated legacy files and the statuses 400/401/410/429/502."
              " Round 13: write_handled_close - the caller handles the reported failure of one chunk, stores the others and closes; accepted chunks must be there, the refused one absent, complete or detectably invalid."
-             " http_faults: after a reported failure the same accessor object is asked again without a fault (the stored bytes or an I/O error)."),
+             " http_faults: after a reported failure the same accessor object is asked again without a fault (the stored bytes or an I/O error)."
+             " Round 17: store_file_no_overwrite (a second, non-overwriting store of info / meta.json)."),
     "trusted_base": ["vlib/faultfs.py: crash model = process killed between "
                      "(or inside) application-level write calls, earlier "
                      "closed files intact; self-checked on every scenario by "
@@ -93,7 +94,8 @@ def scenarios(draw):
         op = draw(st.sampled_from(["store_chunk", "store_chunk", "store_file",
                                    "fetch_chunk", "fetch_file", "exists",
                                    "exists_missing", "overwrite_chunk",
-                                   "store_no_overwrite"]))
+                                   "store_no_overwrite",
+                                   "store_file_no_overwrite"]))
     else:
         op = draw(st.sampled_from(["write_close", "write_close",
                                    "write_handled_close",
@@ -237,6 +239,16 @@ class Scenario:
                 return None
             pio.write_chunk(self.new_arr.copy(), "s0", self.new_cc)
             return ("stored", [("s0", self.new_cc, self.new_arr)])
+        if op == "store_file_no_overwrite":
+            # a second run of a command that writes the info (or another
+            # file) without permission to overwrite: must raise
+            # DataAccessError (with or without an injected fault) and leave
+            # the existing file alone
+            name = ("info", "meta.json")[sc["target"] % 2]
+            pio.accessor.store_file(name, b'{"replaced": true}',
+                                    mime_type="application/json")
+            self.ctx.fail("store_file(%r) without overwrite replaced an "
+                          "existing file [%s]" % (name, describe(sc)))
         if op in ("overwrite_chunk", "store_no_overwrite"):
             keys = sorted(self.model)
             if not keys:
@@ -317,6 +329,17 @@ class Scenario:
         except Exception as exc:
             self.ctx.fail("%s: the dataset cannot be opened any more: %s %s"
                           % (what, type(exc).__name__, exc))
+        if self.sc["kind"] == "file":
+            try:
+                meta = pio.accessor.fetch_file("meta.json")
+            except Exception as exc:
+                self.ctx.fail("%s: the file meta.json stored earlier is no "
+                              "longer readable: %s %s [%s]" % (
+                                  what, type(exc).__name__, exc,
+                                  describe(self.sc)))
+            if meta != b'{"a": 1}':
+                self.ctx.fail("%s: the file meta.json stored earlier changed "
+                              "[%s]" % (what, describe(self.sc)))
         for (key, cc), arr in self.model.items():
             if (key, cc) == exempt:
                 continue
@@ -371,7 +394,8 @@ def check_scenario(ctx, sc):
             try:
                 expected = S.operation(work)
             except DataAccessError:
-                if sc["op"] != "store_no_overwrite":
+                if sc["op"] not in ("store_no_overwrite",
+                                    "store_file_no_overwrite"):
                     raise
                 expected = ("refused", None)
         if expected is None:
@@ -398,7 +422,7 @@ def check_scenario(ctx, sc):
             if ckind.startswith("open:") and ("w" in ckind or "x" in ckind):
                 first_wopen = i
                 break
-        if sc["op"] == "store_no_overwrite":
+        if sc["op"] in ("store_no_overwrite", "store_file_no_overwrite"):
             S.check_previous(work, "refused store without overwrite")
         # ---- 2. every call x errno ---------------------------------------------
         stride = max(1, len(calls) // 150)
